@@ -197,7 +197,7 @@ def check(tier, seed, only=None, skip_a=False, skip_b=False):
   if not skip_a:
     cov, findings, undecided, errors = framework.run_tier_a(PROP, hs)
     from contracts import callee
-    cov["assumed_callee_contracts"] = [{"callee": k, "stated_in": "contracts/callee.py", "discharged_in_this_run_by": v} for k, v in callee.DISCHARGED_BY.items()]
+    cov["assumed_callee_contracts"] = callee.assumed("ClockTime.from_seconds")
   cov["trusted_base"] = ASSUMPTIONS
   cov["explanation"] = ("Proved (all rational timings): the WHOLE srt and vtt writers on document shapes (styled spans incl. an animated colour, two "
                         "paragraphs, nested spans + br, rubies with timed parts; thorough: regions, three symbols) write text that parses under the "
